@@ -24,7 +24,7 @@ import HydroVerif.Num
 namespace HydroVerif.C01
 
 /-- errors raised (as `ValueError`) by the real code -/
-inductive Err | nuUnset | lamUnset | xmaxUnset | negative | sumGe1
+inductive Err | nuUnset | lamUnset | xmaxUnset | negative | sumGe1 | ndimGt2 | unknownName
   deriving DecidableEq, Repr
 
 /-- `np.isnan` on a value of the carrier (only `backward_censored` tests a computed value for NaN) -/
@@ -443,5 +443,130 @@ def backwardCensored [NanTest α] (forward backward : α → Option α) (y censo
     | some t => if NanTest.isNaN t then y else maxv y t
   (backward yc).map fun b => maxv b censor
 
+
+/-! ### public methods on arrays and on objects (what a call of `forward / backward / jacobian /
+backward_censored` with a 1-D float64 array does: the object-level glue, then the formula on every element) -/
+
+/-- a method applied to a 1-D array: elementwise (NaN marks stay per element) -/
+def onArray (f : α → Option α) (xs : List α) : List (Option α) := xs.map f
+
+/-- `backward(forward(xs))` on arrays: NaN elements stay NaN -/
+def bindArray (b : α → Option α) (ys : List (Option α)) : List (Option α) := ys.map fun y => y.bind b
+
+namespace BoxCox1lam
+def State.forwardArr (s : State α) (xs : List α) : Except Err (State α × List (Option α)) :=
+  (State.sync s).map fun s' => (s', onArray (BoxCox2.forward s'.bc) xs)
+def State.backwardArr (s : State α) (ys : List α) : Except Err (State α × List (Option α)) :=
+  (State.sync s).map fun s' => (s', onArray (BoxCox2.backward s'.bc) ys)
+def State.jacobianArr (s : State α) (xs : List α) : Except Err (State α × List (Option α)) :=
+  (State.sync s).map fun s' => (s', onArray (BoxCox2.jacobian s'.bc) xs)
+/-- `backward_censored`: `self.forward(censor)` and `self.backward(yc)` both synchronise first -/
+def State.censoredArr [NanTest α] (s : State α) (ys : List α) (c : α) : Except Err (State α × List (Option α)) :=
+  (State.sync s).map fun s' =>
+    (s', onArray (fun y => backwardCensored (BoxCox2.forward s'.bc) (BoxCox2.backward s'.bc) y c) ys)
+end BoxCox1lam
+
+namespace BoxCox1nu
+def State.forwardArr (s : State α) (xs : List α) : Except Err (State α × List (Option α)) :=
+  (State.sync s).map fun s' => (s', onArray (BoxCox2.forward s'.bc) xs)
+def State.backwardArr (s : State α) (ys : List α) : Except Err (State α × List (Option α)) :=
+  (State.sync s).map fun s' => (s', onArray (BoxCox2.backward s'.bc) ys)
+def State.jacobianArr (s : State α) (xs : List α) : Except Err (State α × List (Option α)) :=
+  (State.sync s).map fun s' => (s', onArray (BoxCox2.jacobian s'.bc) xs)
+def State.censoredArr [NanTest α] (s : State α) (ys : List α) (c : α) : Except Err (State α × List (Option α)) :=
+  (State.sync s).map fun s' =>
+    (s', onArray (fun y => backwardCensored (BoxCox2.forward s'.bc) (BoxCox2.backward s'.bc) y c) ys)
+end BoxCox1nu
+
+namespace BoxCox2sym
+def State.forwardArr (s : State α) (xs : List α) : State α × List (Option α) :=
+  let s' := State.sync s; (s', onArray (BoxCox2sym.forward (State.params s')) xs)
+def State.backwardArr (s : State α) (ys : List α) : State α × List (Option α) :=
+  let s' := State.sync s; (s', onArray (BoxCox2sym.backward (State.params s')) ys)
+def State.jacobianArr (s : State α) (xs : List α) : State α × List (Option α) :=
+  let s' := State.sync s; (s', onArray (BoxCox2sym.jacobian (State.params s')) xs)
+def State.censoredArr [NanTest α] (s : State α) (ys : List α) (c : α) : State α × List (Option α) :=
+  let s' := State.sync s
+  (s', onArray (fun y => backwardCensored (BoxCox2sym.forward (State.params s'))
+    (BoxCox2sym.backward (State.params s')) y c) ys)
+end BoxCox2sym
+
+namespace LogSinh
+def State.forwardArr (s : State α) (xs : List α) : Except Err (List (Option α)) :=
+  (State.params s).map fun p => onArray (LogSinh.forward p) xs
+def State.backwardArr (s : State α) (ys : List α) : Except Err (List (Option α)) :=
+  (State.params s).map fun p => onArray (LogSinh.backward p) ys
+def State.jacobianArr (s : State α) (xs : List α) : Except Err (List (Option α)) :=
+  (State.params s).map fun p => onArray (LogSinh.jacobian p) xs
+def State.censoredArr [NanTest α] (s : State α) (ys : List α) (c : α) : Except Err (List (Option α)) :=
+  (State.params s).map fun p => onArray (fun y => backwardCensored (LogSinh.forward p) (LogSinh.backward p) y c) ys
+end LogSinh
+
+namespace Manly
+def State.forwardArr (s : State α) (xs : List α) : Except Err (List (Option α)) :=
+  (State.params s).map fun p => onArray (Manly.forward p) xs
+def State.backwardArr (s : State α) (ys : List α) : Except Err (List (Option α)) :=
+  (State.params s).map fun p => onArray (Manly.backward p) ys
+def State.jacobianArr (s : State α) (xs : List α) : Except Err (List (Option α)) :=
+  (State.params s).map fun p => onArray (Manly.jacobian p) xs
+def State.censoredArr [NanTest α] (s : State α) (ys : List α) (c : α) : Except Err (List (Option α)) :=
+  (State.params s).map fun p => onArray (fun y => backwardCensored (Manly.forward p) (Manly.backward p) y c) ys
+end Manly
+
+namespace Softmax
+/-- an array of `ndim` dimensions whose rows (after `np.atleast_2d`) are `rows`: more than 2 dimensions are rejected
+before any other check -/
+def forwardND (ndim : Nat) (rows : List (List α)) : Except Err (List (List α)) :=
+  if 2 < ndim then .error .ndimGt2 else forwardM rows
+def backwardND (ndim : Nat) (rows : List (List α)) : Except Err (List (List α)) :=
+  if 2 < ndim then .error .ndimGt2 else backwardM rows
+def jacobianND (ndim : Nat) (rows : List (List α)) : Except Err (List α) :=
+  if 2 < ndim then .error .ndimGt2 else jacobianM rows
+end Softmax
+
 end
+
+/-! ### `get_transform(name, **kwargs)`: which keyword goes where -/
+
+/-- constructor argument names, parameter names and constant names of one class -/
+structure ClassSpec where
+  name : String
+  ctorArgs : List String
+  params : List String
+  constants : List String
+  deriving Repr, DecidableEq
+
+/-- the catalogue (`__all__`), in its order -/
+def catalogue : List ClassSpec := [
+  ⟨"Identity", [], [], []⟩,
+  ⟨"Logit", [], ["lower", "logdelta"], []⟩,
+  ⟨"Log", ["mininu", "base"], ["nu"], []⟩,
+  ⟨"BoxCox2", ["mininu", "minilam"], ["nu", "lam"], []⟩,
+  ⟨"BoxCox1lam", ["mininu", "minilam"], ["lam"], ["nu"]⟩,
+  ⟨"BoxCox1nu", ["mininu", "minilam"], ["nu"], ["lam"]⟩,
+  ⟨"BoxCox2sym", ["mininu", "minilam"], ["nu", "lam"], []⟩,
+  ⟨"YeoJohnson", [], ["nu", "scale", "lam"], []⟩,
+  ⟨"Reciprocal", ["mininu"], ["nu"], []⟩,
+  ⟨"Softmax", [], [], []⟩,
+  ⟨"Sinh", [], ["nu", "scale"], []⟩,
+  ⟨"LogSinh", [], ["loga", "logb"], ["xmax"]⟩,
+  ⟨"Manly", [], ["lam"], ["xmax"]⟩]
+
+inductive Route | ctor | param | const | ignored
+  deriving DecidableEq, Repr
+
+/-- a keyword that names a constructor argument goes to the constructor (and is removed); the others are assigned to
+the parameter / constant of that name, and silently ignored when there is none -/
+def route (c : ClassSpec) (key : String) : Route :=
+  if c.ctorArgs.contains key then .ctor
+  else if c.params.contains key then .param
+  else if c.constants.contains key then .const
+  else .ignored
+
+/-- an unknown name is rejected -/
+def lookupClass (name : String) : Except Err ClassSpec :=
+  match catalogue.find? (·.name == name) with
+  | some c => .ok c
+  | none => .error .unknownName
+
 end HydroVerif.C01
